@@ -75,6 +75,196 @@ fn fdt_tois(xml: &[u8]) -> Option<Vec<u128>> {
     Some(out)
 }
 
+
+// ------------------------------------------------------------------------------------------------
+// admission family (`Flute.Admission.accepts`):
+//   admission <prio> <complete 0|1> <default oti> <override oti|-> <transfer length> <none|own|foreign>
+//         <content type> <md5|-> <etag|-> <groups|->
+//   oti     = <fec id>:<E>:<B>:<parity>:<n | q.<z>.<n>.<al> | r.<z>.<n>.<al> | s.<m>.<g>>
+//   strings = code points, decimal, '.'-separated ("e" = empty string); groups = strings separated by '/'
+// A fresh Sender (ToiMax112, start value 1, priority queue 0 only) per operation; observation
+//   ok z=<Z announced in the FDT File entry|-> next=<next TOI>  |  ERR <reason> next=<next TOI>  |  PANIC
+
+fn parse_oti(tok: &str) -> Option<Oti> {
+    let f: Vec<&str> = tok.split(':').collect();
+    if f.len() != 5 {
+        return None;
+    }
+    let sc: Vec<&str> = f[4].split('.').collect();
+    let n = |i: usize| -> Option<u32> { sc.get(i)?.parse().ok() };
+    let scheme = match (sc[0], sc.len()) {
+        ("n", 1) => None,
+        ("s", 3) => Some((0u8, n(1)?, n(2)?, 0)),
+        ("q", 4) => Some((1u8, n(1)?, n(2)?, n(3)?)),
+        ("r", 4) => Some((2u8, n(1)?, n(2)?, n(3)?)),
+        _ => return None,
+    };
+    flute::verif_hooks::make_oti(f[0].parse().ok()?, 0, f[2].parse().ok()?, f[1].parse().ok()?, f[3].parse().ok()?, scheme, true)
+}
+
+fn parse_str(tok: &str) -> Option<String> {
+    if tok == "e" {
+        return Some(String::new());
+    }
+    tok.split('.').map(|x| x.parse::<u32>().ok().and_then(char::from_u32)).collect()
+}
+
+fn parse_opt_str(tok: &str) -> Option<Option<String>> {
+    if tok == "-" {
+        Some(None)
+    } else {
+        parse_str(tok).map(Some)
+    }
+}
+
+fn b64(s: &str) -> Option<Vec<u8>> {
+    let mut out = Vec::new();
+    let (mut acc, mut bits) = (0u32, 0u32);
+    for c in s.bytes() {
+        let v = match c {
+            b'A'..=b'Z' => c - b'A',
+            b'a'..=b'z' => c - b'a' + 26,
+            b'0'..=b'9' => c - b'0' + 52,
+            b'+' => 62,
+            b'/' => 63,
+            b'=' => continue,
+            _ => return None,
+        } as u32;
+        acc = (acc << 6) | v;
+        bits += 6;
+        if bits >= 8 {
+            bits -= 8;
+            out.push((acc >> bits) as u8);
+            acc &= (1 << bits) - 1;
+        }
+    }
+    Some(out)
+}
+
+/// reason token of an `add_object` error (the text of the FluteError names the check that refused)
+fn refuse_reason(msg: &str) -> &'static str {
+    if msg.contains("Priority queue") {
+        "noq"
+    } else if msg.contains("FDT is complete") {
+        "complete"
+    } else if msg.contains("XML 1.0 cannot carry") {
+        "xml"
+    } else if msg.contains("has not been allocated by this sender") {
+        "foreign"
+    } else if msg.contains("is bigger than") {
+        "toolong"
+    } else if msg.contains("number of parity symbols is 0") {
+        "rsnoparity"
+    } else if msg.contains("exceed the 256 symbols") {
+        "rs256"
+    } else if msg.contains("source symbols per block of the FEC scheme") {
+        "kmax"
+    } else if msg.contains("scheme parameters are not defined") {
+        "noscheme"
+    } else if msg.contains("requires the transmission of") {
+        "toomanyblocks"
+    } else {
+        "other"
+    }
+}
+
+fn admit(t: &[&str], _o: &mut Oracle) -> String {
+    let bad = || "bad-op".to_string();
+    let prio: u32 = match t[0].parse() {
+        Ok(v) => v,
+        Err(_) => return bad(),
+    };
+    let complete = match t[1] {
+        "0" => false,
+        "1" => true,
+        _ => return bad(),
+    };
+    let dflt = match parse_oti(t[2]) {
+        Some(o) => o,
+        None => return bad(),
+    };
+    let ovr = if t[3] == "-" {
+        None
+    } else {
+        match parse_oti(t[3]) {
+            Some(o) => Some(o),
+            None => return bad(),
+        }
+    };
+    let len: u64 = match t[4].parse() {
+        Ok(v) => v,
+        Err(_) => return bad(),
+    };
+    let (ct, md5, etag) = match (parse_str(t[6]), parse_opt_str(t[7]), parse_opt_str(t[8])) {
+        (Some(a), Some(b), Some(c)) => (a, b, c),
+        _ => return bad(),
+    };
+    let groups: Option<Vec<String>> = if t[9] == "-" {
+        None
+    } else {
+        match t[9].split('/').map(parse_str).collect::<Option<Vec<String>>>() {
+            Some(g) => Some(g),
+            None => return bad(),
+        }
+    };
+    let cfg = Config { toi_max_length: TOIMaxLength::ToiMax112, toi_initial_value: Some(1), ..Default::default() };
+    let ep = UDPEndpoint::new(None, "224.0.0.1".to_owned(), 1234);
+    let r = guarded(AssertUnwindSafe(|| {
+        let mut sender = Sender::new(ep.clone(), 1, &dflt, &cfg);
+        let mut other = Sender::new(ep.clone(), 1, &dflt, &cfg);
+        let toi = match t[5] {
+            "none" => None,
+            "own" => Some(sender.allocate_toi()),
+            "foreign" => Some(other.allocate_toi()),
+            _ => return None,
+        };
+        if complete {
+            sender.set_complete();
+        }
+        let mut obj = ObjectDesc::create_from_buffer(
+            vec![1, 2, 3],
+            &ct,
+            &url::Url::parse("file:///obj").unwrap(),
+            false,
+            TransferConfig { oti: ovr.clone(), toi, e_tag: etag.clone(), groups: groups.clone(), ..Default::default() },
+        )
+        .ok()?;
+        // the admission only reads the announced transfer length (the object is never transmitted here)
+        obj.transfer_length = len;
+        obj.md5 = md5.clone();
+        let res = sender.add_object(prio, obj);
+        let out = match res {
+            Ok(toi) => {
+                // Z as announced in the File entry of the FDT
+                let xml = sender.fdt_xml_data(now()).ok().and_then(|x| String::from_utf8(x).ok()).unwrap_or_default();
+                let z = xml.find("<File ").and_then(|i| {
+                    let f = &xml[i..];
+                    let j = f.find("FEC-OTI-Scheme-Specific-Info=\"")?;
+                    let r = &f[j + 30..];
+                    let k = r.find('"')?;
+                    let ssi = b64(&r[..k])?;
+                    let fec = ovr.as_ref().unwrap_or(&dflt).fec_encoding_id as u8;
+                    match (fec, ssi.len()) {
+                        (6, 4) => Some(ssi[0] as u32),
+                        (1, 4) => Some(((ssi[0] as u32) << 8) | ssi[1] as u32),
+                        _ => None,
+                    }
+                });
+                sender.remove_object(toi);
+                format!("ok z={}", z.map(|z| z.to_string()).unwrap_or("-".to_string()))
+            }
+            Err(e) => format!("ERR {}", refuse_reason(&e.0.to_string())),
+        };
+        let next = sender.allocate_toi().get();
+        Some(format!("{} next={}", out, next))
+    }));
+    match r {
+        Ok(Some(s)) => s,
+        Ok(None) => bad(),
+        Err(_) => "PANIC".to_string(),
+    }
+}
+
 /// Everything that touches the real `Sender`; lives on its own thread (see `ToiEngine` below).
 pub struct Session {
     sender: Option<Sender>,
@@ -446,6 +636,7 @@ impl Session {
                 self.synced = true;
                 "ok".to_string()
             }
+            ("admission", 12) => admit(&t[2..], o),
             ("wire", 4) => {
                 let (toi, tsi) = match (big(2), num(3)) {
                     (Some(a), Some(b)) => (a, b),
@@ -1417,6 +1608,166 @@ fn wrapzone(ctx: &mut Ctx, eng: &mut dyn Engine, rng: &mut Rng, id: &str) {
     }
 }
 
+
+// ------------------------------------------------------------------------------------------------
+// admission family: boundary values of every check of add_object / FileDesc::new, then seeded random
+
+fn scheme_tokens(fec: u32, all: bool) -> Vec<&'static str> {
+    let matching = match fec {
+        6 => "q.0.1.4",
+        1 => "r.0.1.4",
+        2 => "s.8.1",
+        _ => "n",
+    };
+    if !all {
+        return vec![matching];
+    }
+    let mut v = vec![matching, "n", "q.7.1.4", "r.7.1.4"];
+    v.dedup();
+    v
+}
+
+fn max_sbn(fec: u32) -> u128 {
+    match fec {
+        0 | 1 => 65535,
+        5 | 6 => 255,
+        129 => 4294967295,
+        _ => 65535,
+    }
+}
+
+fn admit_lengths(fec: u32, e: u64, b: u64, parity: u64) -> Vec<u64> {
+    let cap: u128 = if fec == 6 { 0xFF_FFFF_FFFF } else { 0xFFFF_FFFF_FFFF };
+    let (e1, b1) = (e as u128, b as u128);
+    let mut v: Vec<u128> = vec![0, 1, e1, e1 + 1, e1 * b1, e1 * b1 + 1, cap - 1, cap, cap + 1, u64::MAX as u128];
+    let size = e1 * b1 * max_sbn(fec);
+    v.extend([size.saturating_sub(1), size, size + 1]);
+    // Reed-Solomon: a_large + parity around 256
+    if parity <= 256 {
+        let k = 256 - parity as u128;
+        v.extend([e1 * k, e1 * k + 1, e1 * (k + 1) + 1]);
+    }
+    // Raptor / RaptorQ: a_large around K max, number of blocks around the u8 / u16 limits of Z
+    for k in [8192u128, 56403] {
+        v.extend([e1 * k, e1 * k + 1]);
+    }
+    for z in [255u128, 256, 65535, 65536] {
+        v.extend([e1 * b1 * z, e1 * b1 * z + 1, (e1 * b1 * z).saturating_sub(e1)]);
+    }
+    let mut out: Vec<u64> = v.into_iter().filter(|x| *x <= u64::MAX as u128).map(|x| x as u64).collect();
+    out.sort();
+    out.dedup();
+    out
+}
+
+fn admit_op(prio: u32, complete: bool, dflt: &str, ovr: &str, len: u64, toi: &str, ct: &str, md5: &str, etag: &str, groups: &str) -> String {
+    format!(
+        "toi admission {} {} {} {} {} {} {} {} {} {}",
+        prio, complete as u8, dflt, ovr, len, toi, ct, md5, etag, groups
+    )
+}
+
+fn admit_cases(ctx: &mut Ctx, eng: &mut dyn Engine, rng: &mut Rng, nrandom: usize) {
+    eng.reset();
+    ctx.case("admit");
+    const NOCODE: &str = "0:1024:64:0:n";
+    const CT: &str = "116.101.120.116"; // "text"
+    let issue = |ctx: &mut Ctx, eng: &mut dyn Engine, op: String| {
+        let obs = ctx.step(eng, &op);
+        ctx.evaluations += 1;
+        let key = if obs.starts_with("ok") {
+            "admit=ok".to_string()
+        } else if obs.starts_with("ERR ") {
+            format!("admit=ERR {}", obs.split(' ').nth(1).unwrap_or(""))
+        } else {
+            format!("admit={}", obs)
+        };
+        ctx.count(&key);
+    };
+    let geoms: [(u64, u64); 16] = [
+        (0, 64), (16, 0), (1, 1), (4, 2), (4, 255), (4, 256), (16, 8192), (16, 8193), (4, 56403), (4, 56404),
+        (1024, 64), (65535, 65535), (65535, 4294967295), (1, 4294967295), (2, 65536), (65535, 65537),
+    ];
+    for fec in [0u32, 1, 2, 5, 6, 129] {
+        for (e, b) in geoms {
+            let parities: &[u64] = if fec == 5 || fec == 129 { &[0, 1, 2, 255, 256, 4294967295] } else { &[0, 2] };
+            for &parity in parities {
+                let lens = admit_lengths(fec, e, b, parity);
+                for (i, len) in lens.iter().enumerate() {
+                    for sc in scheme_tokens(fec, i % 5 == 0) {
+                        let oti = format!("{}:{}:{}:{}:{}", fec, e, b, parity, sc);
+                        // as per-object override, and (every third) as the session default
+                        issue(ctx, eng, admit_op(0, false, NOCODE, &oti, *len, "none", CT, "-", "-", "-"));
+                        if i % 3 == 0 {
+                            issue(ctx, eng, admit_op(0, false, &oti, "-", *len, "own", CT, "-", "-", "-"));
+                        }
+                    }
+                }
+            }
+        }
+    }
+    // the checks in front of FileDesc::new, alone and in combination (order of the checks)
+    let cps: [u32; 17] = [0, 1, 8, 9, 10, 13, 31, 32, 127, 0xD7FF, 0xE000, 0xFFFD, 0xFFFE, 0xFFFF, 0x10000, 0x10FFFF, 65];
+    let too_long = "5:4:2:1:n"; // max transfer length 2040
+    for prio in [0u32, 7] {
+        for complete in [false, true] {
+            for toi in ["none", "own", "foreign"] {
+                for (ovr, len) in [("-", 100u64), (too_long, 2041), (too_long, 2040), ("5:4:2:0:n", 8)] {
+                    for bad in [false, true] {
+                        let ct = if bad { "116.1.120" } else { CT };
+                        issue(ctx, eng, admit_op(prio, complete, NOCODE, ovr, len, toi, ct, "-", "-", "-"));
+                    }
+                }
+            }
+        }
+    }
+    for c in cps {
+        let s1 = format!("97.{}.98", c);
+        issue(ctx, eng, admit_op(0, false, NOCODE, "-", 10, "none", &s1, "-", "-", "-"));
+        issue(ctx, eng, admit_op(0, false, NOCODE, "-", 10, "none", CT, &s1, "-", "-"));
+        issue(ctx, eng, admit_op(0, false, NOCODE, "-", 10, "none", CT, "-", &s1, "-"));
+        issue(ctx, eng, admit_op(0, false, NOCODE, "-", 10, "none", CT, "-", "-", &format!("103/{}/e", s1)));
+        issue(ctx, eng, admit_op(0, false, NOCODE, "-", 10, "none", &format!("{}", c), "e", "e", "e"));
+    }
+    // seeded random
+    for _ in 0..nrandom {
+        let fec = *rng.pick(&[0u32, 1, 2, 5, 6, 129]);
+        let e = match rng.below(4) {
+            0 => rng.below(4),
+            1 => *rng.pick(&[1u64, 4, 16, 1024, 1428, 65535]),
+            _ => rng.bits(16) as u64,
+        };
+        let b = match rng.below(4) {
+            0 => rng.below(4),
+            1 => *rng.pick(&[64u64, 255, 256, 8192, 8193, 56403, 56404, 65535, 65536]),
+            _ => rng.bits(32) as u64,
+        };
+        let parity = match rng.below(3) {
+            0 => rng.below(3),
+            1 => rng.below(300),
+            _ => rng.bits(32) as u64,
+        };
+        let all_sc = rng.chance(1, 4);
+        let sc = *rng.pick(&scheme_tokens(fec, all_sc));
+        let lens = admit_lengths(fec, e, b, parity);
+        let len = match rng.below(3) {
+            0 => *rng.pick(&lens),
+            1 => (*rng.pick(&lens)).wrapping_add(rng.below(5)).wrapping_sub(2),
+            _ => rng.bits(64) as u64,
+        };
+        let oti = format!("{}:{}:{}:{}:{}", fec, e, b, parity, sc);
+        let toi = *rng.pick(&["none", "none", "own", "foreign"]);
+        let prio = if rng.chance(1, 10) { 7 } else { 0 };
+        let bad_ct = rng.chance(1, 10);
+        let ct = if bad_ct { format!("97.{}", rng.pick(&cps)) } else { CT.to_string() };
+        if rng.bool() {
+            issue(ctx, eng, admit_op(prio, rng.chance(1, 12), NOCODE, &oti, len, toi, &ct, "-", "-", "-"));
+        } else {
+            issue(ctx, eng, admit_op(prio, rng.chance(1, 12), &oti, "-", len, toi, &ct, "-", "-", "-"));
+        }
+    }
+}
+
 fn wire_cases(ctx: &mut Ctx, eng: &mut dyn Engine, rng: &mut Rng, n: usize) {
     eng.reset();
     ctx.case("wire");
@@ -1455,7 +1806,9 @@ pub fn run(ctx: &mut Ctx, eng: &mut dyn Engine) {
                 churn once around the circle to just before / into the zone, then the zone crossed by single allocations interleaved with \
                 releases of the holders in it, twice); every returned TOI, the TOI field (flags and bytes) of the object's packets, the FDT TOI \
                 attributes and the remove results are compared with the Lean model; oracle = the clauses of C15 on the \
-                implementation's observations; plus header build/parse of boundary and random TOI x TSI values; \
+                implementation's observations; plus the admission family (Flute.Admission.accepts: add_object Ok / Err reason / panic, Z announced in the FDT, TOI consumed or not, \
+                on a fresh Sender per operation: boundary values of every check x 6 FEC ids x scheme-specific present/absent/mismatched, the early checks in \
+                all combinations, XML character classes, seeded random); plus header build/parse of boundary and random TOI x TSI values; \
                 non-trivial = history with >= 2 allocations and >= 4 distinct operation kinds (distinct by case id)"
         .to_string();
     let mut rng = Rng::new(ctx.seed);
@@ -1483,6 +1836,7 @@ pub fn run(ctx: &mut Ctx, eng: &mut dyn Engine) {
         }
         wrapzone(ctx, eng, &mut rng, &format!("wrapzone-{}", i));
     }
+    admit_cases(ctx, eng, &mut rng, if ctx.tier_thorough { 40_000 } else { 2_000 });
     wire_cases(ctx, eng, &mut rng, if ctx.tier_thorough { 200_000 } else { 20_000 });
     if ctx.tier_thorough {
         // D19: ToiMax16, 65534 handles live (every non-zero value but one): the call that takes the last
